@@ -357,6 +357,26 @@ def extract_channel_consts():
     return const("SLOTS", "usize"), const("BITS", "u16"), const("MASK", "u16")
 
 
+def extract_poll_signal_shape():
+    """does poll_signal re-check is_closed() before turning poll_pending's None into Pending?"""
+    b = strip_comments(read("src/iterator/backend.rs"))
+    m = re.search(r"fn\s+poll_signal.*?\n    \}\n", b, re.S)
+    if not m:
+        raise ExtractError("poll_signal not found")
+    body = m.group(0)
+    if not re.search(r"while\s+!self\.signals\.borrow_mut\(\)\.handle\.is_closed\(\)", body):
+        raise ExtractError("poll_signal loop condition changed")
+    arm = re.search(r"Ok\(None\)\s*=>\s*(\{.*?\n                \}|return\s+PollResult::Pending\s*,)", body, re.S)
+    if not arm:
+        raise ExtractError("poll_signal: Ok(None) arm not understood")
+    txt = arm.group(1)
+    if txt.startswith("return"):
+        return False
+    if re.search(r"if\s+self\.signals\.borrow_mut\(\)\.handle\.is_closed\(\)\s*\{\s*return\s+PollResult::Closed;\s*\}\s*return\s+PollResult::Pending;", txt):
+        return True
+    raise ExtractError("poll_signal: Ok(None) arm has a shape the translator does not understand")
+
+
 def extract_misc_consts():
     b = strip_comments(read("src/iterator/backend.rs"))
     m = re.search(r"const\s+MAX_SIGNUM\s*:\s*usize\s*=\s*(\d+)\s*;", b)
@@ -482,6 +502,8 @@ def main():
     lines.append("def MAX_SIGNUM : Nat := %d" % maxsig)
     lines.append("/-- half_lock.rs -/")
     lines.append("def YIELD_EVERY : Nat := %d" % yield_every)
+    lines.append("/-- backend.rs `poll_signal`: re-checks `is_closed()` before answering `Pending` for a `None` of `poll_pending` -/")
+    lines.append("def pollRechecksClosed : Bool := %s" % ("true" if extract_poll_signal_shape() else "false"))
     lines.append("\nend SigHook.Gen\n")
     write_if_changed(os.path.join(OUT, "Consts.lean"), "\n".join(lines))
 
